@@ -87,6 +87,55 @@ def run(ctx):
     ctx.check("R4", pa, "comment, body = (body[match.end() - 1:], body[:match.start()])" in tpa, "comment-split", "the comment starts at a '#' that begins a word")
     ctx.floor("R4", 3)
 
+    # ---- R5 one notion of "blank" ---------------------------------------------------------------------------
+    from ..core import rx as RX
+    mod = P.module(MOD)
+
+    def lit(name):
+        v = mod.assigns.get(name)
+        if isinstance(v, ast.Call) and dotted(v.func) == "re.compile" and v.args and isinstance(v.args[0], ast.Constant):
+            return v.args[0].value
+        return None
+    cre, tre = lit("_COMMENT_RE"), lit("_TOKEN_RE")
+    ctx.require(cre is not None and tre is not None, "pkglist: _COMMENT_RE / _TOKEN_RE literals not found")
+
+    def blank_notions(pattern):
+        """how the pattern speaks of blanks: {'\\s', '\\S', 'explicit:<chars>'}"""
+        out = set()
+
+        def walk(sub):
+            for op, av in sub:
+                name = str(op)
+                if name == "IN":
+                    cats = [str(a[1]) for a in av if str(a[0]) == "CATEGORY"]
+                    lits = [chr(a[1]) for a in av if str(a[0]) == "LITERAL"]
+                    neg = any(str(a[0]) == "NEGATE" for a in av)
+                    for c in cats:
+                        if c.endswith("CATEGORY_SPACE") and not c.endswith("NOT_SPACE"):
+                            out.add("\\S" if neg else "\\s")
+                        elif c.endswith("NOT_SPACE"):
+                            out.add("\\s" if neg else "\\S")
+                    if lits and all(ch.isspace() for ch in lits):
+                        out.add("explicit:" + "".join(sorted(repr(ch)[1:-1] for ch in lits)))
+                elif name == "CATEGORY":
+                    out.add("\\S" if str(av).endswith("NOT_SPACE") else "\\s")
+                elif name == "LITERAL" and chr(av).isspace():
+                    out.add("explicit:" + repr(chr(av))[1:-1])
+                elif name in ("SUBPATTERN",):
+                    walk(av[3])
+                elif name == "BRANCH":
+                    for alt in av[1]:
+                        walk(alt)
+                elif name in ("MAX_REPEAT", "MIN_REPEAT"):
+                    walk(av[2])
+        walk(RX.parse(pattern))
+        return out
+    cn, tn = blank_notions(cre), blank_notions(tre)
+    ctx.check("R5", PL, cn == {"\\s"} and tn == {"\\S"}, f"one-notion-of-blank:{sorted(cn)}/{sorted(tn)}", "comment detection (\\s before '#') and tokenising (\\S+, str.split()) use the same notion of blank",
+              f"the comment regex speaks of blanks as {sorted(cn)} while tokens are {sorted(tn)} / str.split(): a '#' after a blank the comment regex does not know (no-break space, U+2003) is tokenised as a keyword, and the comment is rewritten away on expansion", node=mod.assigns.get("_COMMENT_RE"))
+    splits = [c for c in A.calls(pa.node) if A.call_attr(c) == "split" and not c.args]
+    ctx.check("R5", pa, len(splits) == 1, "fields-split-on-any-blank", "_parse splits fields on any whitespace (str.split() without argument)")
+    ctx.floor("R5", 2)
 
 F = "src/pkgcore/bugzilla/pkglist.py"
 MUTANTS = [
@@ -97,5 +146,8 @@ MUTANTS = [
     {"name": "rejoin-with-newline", "file": F, "old": "\"\".join(x.raw + x.eol for x in expanded)", "new": "\"\\n\".join(x.raw for x in expanded)", "rule": "R3"},
     {"name": "comment-dropped", "file": F, "old": "                f\"{body[tokens[-1].end() :]}{self.raw[comment_at:]}\"", "new": "                f\"{body[tokens[-1].end() :]}\"", "rule": "R3"},
     {"name": "blank-lines-dropped", "file": F, "old": "            if entry.pkg is None:\n                expanded.append(entry)\n                continue", "new": "            if entry.pkg is None:\n                continue", "rule": "R3"},
+]
+MUTANTS += [
+    {"name": "comment-regex-ascii-blanks", "file": F, "old": "re.compile(r\"(?:^|\\s)#\")", "new": "re.compile(r\"(?:^|[ \\t])#\")", "rule": "R5"},
 ]
 TWINS = []
